@@ -157,6 +157,8 @@ E('g_assign_from_map', 'group', 'Eigen::Map<G> M(bufG); X = M; CHECK_SAME(X, Yo)
 E('g_assign_from_cmap', 'group', 'const Eigen::Map<const G> M(bufG); X = M; CHECK_SAME(X, Yo);', mut=True, doc=LGB)
 E('g_assign_from_eigen', 'group', 'X = Yo.coeffs(); CHECK_SAME(X, Yo);', mut=True, doc=LGB)
 E('g_assign_from_temporary', 'group', 'X = Yo.inverse(); CHECK_SAME(X, Yo.inverse());', mut=True, doc=LGB)
+E('g_move_from', 'group', 'G tmp(X); G Z(std::move(tmp)); CHECK_SAME(Z, Xo); G W; W = std::move(Z); CHECK_SAME(W, Xo);', doc='<Group>.h move constructor / assignment')
+E('g_move_into', 'group', 'G tmp(Yo); X = std::move(tmp); CHECK_SAME(X, Yo);', mut=True, doc=LGB)
 
 # per-group accessors
 E('g_transform', 'group', 'CHECK_SAME(X.transform(), Xo.transform());', doc='<Group>_base.h')
@@ -325,6 +327,8 @@ E('t_assign_from_map', 'tangent', 'Eigen::Map<T> m(bufT); t = m; CHECK_SAME(t, u
 E('t_assign_from_cmap', 'tangent', 'const Eigen::Map<const T> m(bufT); t = m; CHECK_SAME(t, uo);', mut=True, doc=TGB)
 E('t_assign_from_eigen', 'tangent', 't = uo.coeffs(); CHECK_SAME(t, uo);', mut=True, doc=TGB)
 E('t_assign_from_temporary', 'tangent', 't = -uo; CHECK_SAME(t, T(-uo.coeffs()));', mut=True, doc=TGB)
+E('t_move_from', 'tangent', 'T tmp(t); T z(std::move(tmp)); CHECK_SAME(z, to); T w; w = std::move(z); CHECK_SAME(w, to);', doc='<Group>Tangent.h move constructor / assignment')
+E('t_move_into', 'tangent', 'T tmp(uo); t = std::move(tmp); CHECK_SAME(t, uo);', mut=True, doc=TGB)
 # per-tangent accessors
 E('t_x', 'tangent', 'CHECK_SAME(t.x(), to.x());', groups=('SE2', 'SO3'), doc='<Group>Tangent_base.h')
 E('t_y', 'tangent', 'CHECK_SAME(t.y(), to.y());', groups=('SE2', 'SO3'), doc='<Group>Tangent_base.h')
